@@ -362,12 +362,14 @@ def _prescripts_ok(t):
     return True
 
 
-def test_cases():
+def test_cases(private_use=True):
     """the MathML inputs of the repository's own tests (inputs only; those an XML parser reads without an entity table): labels
     'test:<hash>'.  A <math> with several children is given the row MathML implies."""
     import hashlib, testcorpus
     out = []
     for x in testcorpus.expressions():
+        if not private_use and any(0xE000 <= ord(c) <= 0xF8FF or ord(c) >= 0xF0000 for c in x):
+            continue            # for checks whose alphabet excludes private-use characters (they are passed through by design)
         try:
             m = terms.parse_xml(x)
         except Exception:
